@@ -8,6 +8,7 @@ import (
 	"github.com/go-kid/strconv2"
 	"github.com/go-kid/strings2"
 	"github.com/pkg/errors"
+	"reflect"
 )
 
 type valueAwarePostProcessors struct {
@@ -37,6 +38,13 @@ func NewValueAwarePostProcessors() container.InstantiationAwareComponentPostProc
 	}
 }
 
+func isStringKind(p reflect.Type) bool {
+	if p.Kind() == reflect.Pointer {
+		p = p.Elem()
+	}
+	return p.Kind() == reflect.String
+}
+
 func (c *valueAwarePostProcessors) PostProcessAfterInstantiation(component any, componentName string) (bool, error) {
 	return true, nil
 }
@@ -56,9 +64,18 @@ func (c *valueAwarePostProcessors) PostProcessProperties(properties []*component
 			}
 			continue
 		}
-		parseVal, err := strconv2.ParseAny(prop.TagVal)
-		if err != nil {
-			return nil, errors.WithMessagef(err, "parse value on '%s' failed", prop)
+		var (
+			parseVal any
+			err      error
+		)
+		if isStringKind(prop.Type) {
+			//a string field takes the text as written: re-parsing it as a literal would turn "1.10" into "1.1", "007" into "7", "TRUE" into "1"
+			parseVal = prop.TagVal
+		} else {
+			parseVal, err = strconv2.ParseAny(prop.TagVal)
+			if err != nil {
+				return nil, errors.WithMessagef(err, "parse value on '%s' failed", prop)
+			}
 		}
 		err = prop.Unmarshall(parseVal)
 		//err := reflectx.SetAnyValueFromString(prop.Type, prop.Value, prop.TagVal, c.hm)
